@@ -154,17 +154,31 @@ func (res *Response) unlockStores() {
 }
 
 func (res *Response) getAffectedTables(reqTable *Table) []TableName {
-	if len(reqTable.refTables) == 0 {
-		return ([]TableName{reqTable.name})
-	}
+	return res.request.affectedTables(reqTable)
+}
 
+// affectedTables returns the tables which are read while this request is answered, sorted by id.
+func (req *Request) affectedTables(reqTable *Table) []TableName {
 	uniq := map[TableName]bool{
-		res.request.Table: true,
+		reqTable.name: true,
 	}
 
-	for _, col := range res.request.RequestColumns {
-		if col.StorageType == RefStore {
-			uniq[col.RefCol.Table.name] = true
+	for _, col := range req.RequestColumns {
+		addColumnTables(uniq, col)
+	}
+
+	// columns of other tables are read by filters, stats, wait conditions and the sort order as well
+	addReferencedTables(uniq, req.Filter)
+	addReferencedTables(uniq, req.Stats)
+	addReferencedTables(uniq, req.StatsGrouped)
+	addReferencedTables(uniq, req.WaitCondition)
+	for _, field := range req.Sort {
+		addColumnTables(uniq, field.Column)
+	}
+	// the authorization of a user is checked against the contacts of the referenced objects
+	if req.AuthUser != "" {
+		for i := range reqTable.refTables {
+			uniq[reqTable.refTables[i].Table.name] = true
 		}
 	}
 
@@ -174,6 +188,32 @@ func (res *Response) getAffectedTables(reqTable *Table) []TableName {
 	slices.Sort(tables)
 
 	return tables
+}
+
+// addColumnTables adds the tables a column reads its value from.
+func addColumnTables(uniq map[TableName]bool, col *Column) {
+	if col == nil {
+		return
+	}
+	if col.StorageType == RefStore {
+		uniq[col.RefCol.Table.name] = true
+		col = col.RefCol
+	}
+	// virtual columns which are calculated from the objects of other tables
+	if col.StorageType == VirtualStore && (strings.HasSuffix(col.Name, "_with_info") || strings.HasSuffix(col.Name, "_with_state")) {
+		uniq[TableHosts] = true
+		uniq[TableServices] = true
+		uniq[TableComments] = true
+		uniq[TableDowntimes] = true
+	}
+}
+
+// addReferencedTables adds the tables of all reference columns used in the given filters.
+func addReferencedTables(uniq map[TableName]bool, filters []*Filter) {
+	for _, f := range filters {
+		addColumnTables(uniq, f.column)
+		addReferencedTables(uniq, f.filter)
+	}
 }
 
 func (res *Response) prepareResponse(ctx context.Context, req *Request) {
